@@ -7,7 +7,7 @@ for N in $NAMES; do
   [ -f seeded/$N/patch.diff ] || continue
   P=${N%%_*}
   grep -q '"obsolete": true' seeded/$N/meta.json && { echo "$N | obsolete (code it changes was replaced by a fix), skipped"; continue; }
-  M=$(tools/mutant_run.sh seeded/$N/patch.diff $P 2>&1 | grep '^MUTANT' | head -1)
+  M=$(MR_SLOT=${MR_SLOT:-r0} tools/mutant_run.sh seeded/$N/patch.diff $P 2>&1 | grep '^MUTANT' | head -1)
   echo "$N | $M"
   python3 - "$N" "$M" <<'PY'
 import json, sys
